@@ -1,4 +1,8 @@
 open Drv_common
+module M = struct
+  include Drv_common.M
+  include Panic
+end
 (* ------------------------------------------------------------------ panic *)
 let pst (p : M.pstate) : string =
   String.concat " " [zs p.M.p_flags; zs p.M.p_daily; zs p.M.p_consec; zs p.M.p_start; zs p.M.p_last_reset]
@@ -23,7 +27,7 @@ let suite_panic (line : string) : string =
       | _ -> failwith "bad op" in
     out := (r ^ " " ^ pst !p) :: !out
   done;
-  String.concat " | " (List.rev !out)
+  String.concat " | " (Stdlib.List.rev !out)
 
 
 let () = register "panic" suite_panic
